@@ -23,7 +23,9 @@ API
                                          (it supersedes log_k/delta_h), else van 't Hoff from log_k and delta_h; plus
                                          coef * value of every -add_logk named expression, plus -add_constant
     db.alk(name)                         alkalinity contribution of a species (eq per mol)
-    db.composition(name)                 {element: coef} primary elements of a species (from its formula)
+    db.composition(name)                 {element: coef} primary elements of a species / phase read from its formula
+    db.stoichiometry(name)               {element: coef} of a species as it enters mole balances (from its equation, or
+                                         from -mole_balance); differs from composition() only for -no_check equations
     db.valence_composition(name)         {element-or-valence-state name: coef} in terms of the master species reached by
                                          expanding the species' reaction (or its -mole_balance formula), e.g.
                                          FeCl+2 -> {"Fe(3)": 1, "Cl": 1}
@@ -495,9 +497,26 @@ class Database:
         return tot
 
     def composition(self, name):
+        """{element: coef} read from the *formula* (name) of a species or phase."""
         e = self.species.get(name) or self.phases.get(name)
         comp, _ = parse_formula(e.formula if e is not None and e.kind == "phase" else name)
         return comp
+
+    def stoichiometry(self, name):
+        """{primary element: coef} of a species as used in mole balances.  Manual (SOLUTION_SPECIES): "normally, both the
+        stoichiometry and the mass-action expression for the species are determined from the chemical equation";
+        -mole_balance gives it explicitly.  For a balanced equation this equals composition(name); for -no_check
+        equations (polysulfides in equilibrium with an implicit solid) it does not."""
+        e = self.species[name]
+        comp = {}
+        if e.mole_balance:
+            for k, v in parse_formula(e.mole_balance, valence=True)[0].items():
+                comp[k.split("(")[0]] = comp.get(k.split("(")[0], 0.0) + v
+        else:
+            for j, nu in self.expand(name, True).items():
+                for k, v in parse_formula(j)[0].items():
+                    comp[k] = comp.get(k, 0.0) + nu * v
+        return {k: v for k, v in comp.items() if abs(v) > 1e-12 and k != "e"}
 
     def valence_composition(self, name):
         """{element or valence-state name: coefficient} used for mole balances.  If the species has -mole_balance that
